@@ -41,10 +41,11 @@ const (
 	sTickPP // now = last receive + 3*period
 	sTickPF // like tick+, but the ping cannot be sent (the write fails); KeepAlive object layer only
 	sPartial // some more bytes of a frame that never completes arrive (stream connections only): not a message
+	sTickJ   // now = last received MESSAGE + period + 10 ms (used after sPartial, which arrives >= 30 ms after that message)
 	nSyms
 )
 
-var symNames = [...]string{"recv", "pong-current", "pong-stale", "tick-", "tick+", "tick++", "tick+(ping-unsendable)", "bytes-of-an-incomplete-frame"}
+var symNames = [...]string{"recv", "pong-current", "pong-stale", "tick-", "tick+", "tick++", "tick+(ping-unsendable)", "bytes-of-an-incomplete-frame", "tick(+10ms)"}
 
 func str(s []sym) string {
 	var b bytes.Buffer
@@ -362,6 +363,9 @@ func (d *tcpDriver) recv(kind int) (time.Time, time.Time) {
 // partial feeds the next bytes of a frame that is never completed: first the header of a GET announcing a 250-byte body,
 // then one body byte per call. The peer "keeps delivering bytes", but no message arrives.
 func (d *tcpDriver) partial() {
+	// in real time well after the last whole message, so that a tick can be placed between "last message + period" and
+	// "these bytes + period"
+	time.Sleep(30 * time.Millisecond)
 	if !d.partialStarted {
 		d.partialStarted = true
 		d.sc.Feed([]byte{0xd1, 250 - 13, 0x01, 0x77}) // Len=13+ext, TKL=1, code GET, token
@@ -431,10 +435,13 @@ func runConn(rec *vr.Rec, layer string, d connDriver, lo, hi time.Time, keepAliv
 				rec.Violation("C18/"+layer+"/ping-before-period", fmt.Sprintf("event %d", i), c)
 				return
 			}
-		case sTickP, sTickPP:
+		case sTickP, sTickPP, sTickJ:
 			now := hi.Add(period + eps)
 			if e == sTickPP {
 				now = hi.Add(3 * period)
+			}
+			if e == sTickJ {
+				now = hi.Add(period + 10*time.Millisecond)
 			}
 			np := d.pings()
 			d.tick(now)
@@ -555,7 +562,7 @@ func TestRun(t *testing.T) {
 	}
 	enumerate([]sym{sRecv, sTickM, sTickP}, vr.Scale(4, 6), func(s []sym) { jobs = append(jobs, job{"tcp", false, 0, s}) })
 	// a stream peer that trickles an endless frame: bytes keep arriving, messages do not
-	enumerate([]sym{sPartial, sTickM, sTickP}, vr.Scale(4, 6), func(s []sym) {
+	enumerate([]sym{sPartial, sTickM, sTickJ}, vr.Scale(3, 5), func(s []sym) {
 		jobs = append(jobs, job{"tcp", false, 0, append([]sym{sRecv}, s...)})
 		jobs = append(jobs, job{"tcp", true, 1 + len(s)%2, append([]sym{sRecv}, s...)})
 	})
